@@ -229,6 +229,32 @@ def r3_builders(r, facts):
     r.floor(20, 'builder methods')
 
 
+def _labels_for_operand(g, loc, op):
+    """per-variant constants of a whole-local operand used at loc (api.match_labels works on `x = use local` statements)"""
+    from .kernel import place_key, def_expr
+    eb = ExprBuilder(g, multi='phi')
+    out = set()
+    for dl, s_ in g.assigns():
+        r2 = s_['rv']
+        if r2['k'] == 'discr' and r2.get('variants') and len(r2['variants']) > 1 and (r2.get('adt') or '').endswith('Kind'):
+            key = r2['place']['l'] if not r2['place']['p'] else place_key(r2['place'])
+            for vidx, vname in r2['variants']:
+                defs = g.reaching_defs([dl], loc, op['l'], env0={('D', key): int(vidx)})
+                vals = set()
+                for d in defs:
+                    e = def_expr(g, d, eb) if d != 'entry' else None
+                    cs = [x for x in subexprs(e)] if e is not None else []
+                    cs = [x for x in cs if x[0] == 'const']
+                    if len(cs) == 1:
+                        nm = cs[0][2]
+                        vals.add(str(nm).rsplit('::', 1)[1] if nm is not None and '::' in str(nm) else str(cs[0][1]))
+                    else:
+                        vals.add(None)
+                if len(vals) == 1 and None not in vals:
+                    out.add('m:%s=%s' % (vname, next(iter(vals))))
+    return out
+
+
 def r4_fixed_file(r, facts):
     f = facts.fn('<fd::AsyncFd as io_uring::op::OpTarget>::set_flags')
     eb = ExprBuilder(f, multi='phi')
@@ -244,6 +270,20 @@ def r4_fixed_file(r, facts):
     fixed = facts.const('io_uring::libc::IOSQE_FIXED_FILE')
     ok = len(ws) == 1 and ws[0].off == 1 and ws[0].or_const is not None and any(rt[0] == 'const' and rt[1] == fixed for rt in ws[0].roots) \
         and len(ws[0].conds) == 1 and ws[0].conds[0][1] == 'Direct' and ws[0].conds[0][0].endswith('fd::Kind')
+    if not ok and len(ws) == 1 and ws[0].off == 1 and ws[0].or_const is not None:
+        # `flags |= match kind { File => 0, Direct => IOSQE_FIXED_FILE }`: an unconditional OR of a per-variant value —
+        # OR-ing 0 changes nothing, so this is the same effect
+        for g2 in [f] + [facts.fn_opt(t.get('resolved') or t.get('callee') or '') for _, t in f.calls()]:
+            if g2 is None:
+                continue
+            for loc2, s2 in g2.assigns():
+                fl2 = [p_ for p_ in s2['lhs']['p'] if p_['k'] == 'field']
+                if fl2 and fl2[-1].get('name') == 'flags' and s2['rv']['k'] == 'bin' and s2['rv']['op'] == 'BitOr':
+                    for o_ in (s2['rv']['a'], s2['rv']['b']):
+                        if 'l' in o_ and not o_['p']:
+                            labs = _labels_for_operand(g2, loc2, o_)
+                            if labs == {'m:File=0', 'm:Direct=IOSQE_FIXED_FILE'}:
+                                ok = True
     r.inst('set_flags: %s' % ws, f.where())
     r.require(ok, 'Kind::use_flags', 'set_flags does not OR IOSQE_FIXED_FILE into sqe.flags exactly on the Direct arm: %s' % ws, f.where())
     s = facts.fn('<SubmissionQueue as io_uring::op::OpTarget>::set_flags')
